@@ -70,6 +70,24 @@ pub fn is_sane(d: &DDesc) -> bool {
     }
 }
 
+/// Well-typed: the top-level miniscript of every script-carrying part is a complete boolean (B)
+/// expression. (`Descriptor::from_str` at this commit does not check this for sh/wsh.)
+pub fn is_well_typed(d: &DDesc) -> bool {
+    use miniscript::descriptor::ShInner;
+    let p = miniscript::ValidationParams::CONSENSUS; // permissive except allow_non_b = false
+    match d {
+        Descriptor::Bare(b) => b.as_inner().validate(&p).is_ok(),
+        Descriptor::Pkh(_) | Descriptor::Wpkh(_) => true,
+        Descriptor::Wsh(w) => w.as_inner().validate(&p).is_ok(),
+        Descriptor::Sh(s) => match s.as_inner() {
+            ShInner::Wpkh(_) => true,
+            ShInner::Wsh(w) => w.as_inner().validate(&p).is_ok(),
+            ShInner::Ms(m) => m.validate(&p).is_ok(),
+        },
+        Descriptor::Tr(t) => t.leaves().all(|l| l.miniscript().validate(&p).is_ok()),
+    }
+}
+
 /// Map from the textual form of a definite key to the universe key id.
 pub fn expr_index(uni: &KeyUniverse) -> BTreeMap<String, usize> {
     let mut m = BTreeMap::new();
